@@ -38,6 +38,8 @@ def apply(a, line):
         if x != y and frozenset([x]) in a.c and frozenset([y]) in a.c: a.c.add(frozenset(v))
         return 'adde'
     if o == 'adds':
+        for w in range(a.nv, max(v) + 1): a.c.add(frozenset([w]))      # missing vertices are created, with every label in between
+        a.nv = max(a.nv, max(v) + 1)
         for k in range(1, len(v) + 1):
             for f in itertools.combinations(sorted(set(v)), k): a.c.add(frozenset(f))
         return 'adds'
@@ -53,7 +55,7 @@ def apply(a, line):
         return 'contract 0'
     if o == 'obs':
         subs = [frozenset(k for k in range(a.nv) if m >> k & 1) for m in range(1, 1 << a.nv)]
-        return ['contains ' + ' '.join('1' if s in a.c else '0' for s in subs), ('blockers ' + ' '.join(','.join(map(str, b)) for b in a.blockers())).rstrip()]
+        return ['contains ' + ' '.join('1' if s in a.c else '0' for s in subs), ('blockers ' + ' '.join(','.join(map(str, b)) for b in a.blockers())).rstrip(), 'nverts %d' % sum(1 for s in a.c if len(s) == 1)]
     return None
 
 
@@ -101,6 +103,24 @@ def minimal_nonfaces(a, vs):
 def gen_case(rng, maxlen=24):
     a = Abs(); lines = []
     for _ in range(rng.randrange(3, 7)): lines.append('addv'); apply(a, 'addv')
+    if rng.random() < 0.3:
+        # a dense start: a complete graph on 5 or 6 vertices, a few tetrahedra removed (they become blockers sharing triangles),
+        # then stars of triangles removed (every blocker through the triangle has to go)
+        while a.nv < rng.choice([5, 6]): lines.append('addv'); apply(a, 'addv')
+        vs = list(range(a.nv))
+        # (add_edge blocks the new triangles: full simplices come from add_simplex)
+        big_ = sorted(rng.sample(vs, rng.choice([5, 5, len(vs)])))
+        l = 'adds ' + ' '.join(map(str, big_)); lines.append(l); apply(a, l); lines.append('obs')
+        vs = big_
+        tri_ = rng.sample(vs, 3); others_ = [v for v in vs if v not in tri_]
+        # two or three tetrahedra through one triangle become blockers, then the star of that triangle goes
+        for u_ in rng.sample(others_, min(len(others_), rng.choice([2, 2, 3]))):
+            t_ = sorted(tri_ + [u_])
+            if frozenset(t_) in a.c: l = 'rmstar ' + ' '.join(map(str, t_)); lines.append(l); apply(a, l); lines.append('obs')
+        for dim_ in (4, 3):
+            for t_ in rng.sample(list(itertools.combinations(vs, dim_)), 2):
+                if frozenset(t_) in a.c and rng.random() < 0.5: l = 'rmstar ' + ' '.join(map(str, t_)); lines.append(l); apply(a, l); lines.append('obs')
+        if frozenset(tri_) in a.c and rng.random() < 0.8: l = 'rmstar ' + ' '.join(map(str, sorted(tri_))); lines.append(l); apply(a, l); lines.append('obs')
     for _ in range(rng.randrange(3, maxlen)):
         r = rng.random(); vs = sorted({v for s in a.c if len(s) == 1 for v in s})
         blockers = [b for b in minimal_nonfaces(a, vs) if len(b) >= 3] if r < 0.12 else []
@@ -113,6 +133,7 @@ def gen_case(rng, maxlen=24):
         elif r < 0.3 and len(vs) >= 2: x, y = rng.sample(vs, 2); l = 'adde %d %d' % (x, y)
         elif r < 0.5 and len(vs) >= 3:
             sv = sorted(rng.sample(vs, rng.randrange(3, min(len(vs), 5) + 1)))
+            if a.nv < 7 and rng.random() < 0.25: sv = sorted(sv[:rng.choice([2, 3])] + [a.nv + rng.choice([0, 0, 1])])     # with a vertex that does not exist yet (possibly skipping a label)
             if frozenset(sv) in a.c: continue      # add_simplex asserts that the simplex is new
             l = 'adds ' + ' '.join(map(str, sv))
         elif r < 0.7 and a.c:
